@@ -36,13 +36,17 @@ CONSTANTS Atoms,          \* [1..N -> [ins, outs, fee, shift, lock, nrd]]
           MineWeight,     \* PoolConfig.mineable_max_weight
           FeeFirst, EvictMode,
           ShortReorg,     \* allow a heavier but shorter fork (2 blocks replaced by 1)
+          ReconcileMature, \* TRUE: re-validation after a block / reorg also demands maturity and lock height
+                          \* (what C13/C14 demand); FALSE: utxo and sums only, as Pool::reconcile does
           MaxBlocks, MaxSteps   \* model-checking bounds only
 
 VARIABLES chain,      \* blocks connected after the trunk: sequence of sets of atoms
           txpool, stempool, cache,   \* sequences of transactions (sets of atoms), insertion order
+          pending,    \* <<B>> when only the HEADER of the next block B has been delivered (header-first
+                      \* propagation): the header chain is one ahead of the body chain; else <<>>
           last,       \* observation of the last action (result class etc.)
           nsteps
-vars == <<chain, txpool, stempool, cache, last, nsteps>>
+vars == <<chain, txpool, stempool, cache, pending, last, nsteps>>
 
 AtomIds == DOMAIN Atoms
 CoinbaseWeight == 24      \* one output (21) + one kernel (3)
@@ -98,11 +102,14 @@ ValidBlock(B, ch) ==
 ----------------------------------------------------------------------------
 \* Pool::add_to_pool : aggregate (extra + pool + new) must validate against the chain
 CanAdd(pool, extra, x, u) == JointSeq(extra \o pool \o <<x>>, u)
-\* Pool::reconcile : clear and re-add one by one
-RECURSIVE Rebuild(_, _, _, _)
-Rebuild(old, acc, extra, u) ==
+\* Pool::reconcile : clear and re-add one by one (nh = height of the next block)
+StillRipe(x, u, nh) == ReconcileMature => /\ LockOf(x) <= nh
+                                          /\ \A c \in TxOf(x).ins \cap u : MatureAt(c, nh)
+RECURSIVE Rebuild(_, _, _, _, _)
+Rebuild(old, acc, extra, u, nh) ==
   IF old = <<>> THEN acc
-  ELSE Rebuild(Tail(old), IF CanAdd(acc, extra, Head(old), u) THEN Append(acc, Head(old)) ELSE acc, extra, u)
+  ELSE Rebuild(Tail(old), IF CanAdd(acc, extra, Head(old), u) /\ StillRipe(Head(old), u, nh)
+                          THEN Append(acc, Head(old)) ELSE acc, extra, u, nh)
 \* Pool::reconcile_block : drop entries sharing a kernel or an input with the block
 ReconcileBlock(pool, B) ==
   SelectSeq(pool, LAMBDA x : x \cap B = {} /\ TxOf(x).ins \cap TxOf(B).ins = {})
@@ -136,7 +143,7 @@ AddFluff(x, sp0, over) ==
   IF ~CanAdd(txpool, <<>>, x, U)
   THEN [res |-> "reject", why |-> "conflict", tp |-> txpool, sp |-> sp0, ca |-> cache, evict |-> FALSE, adm |-> {}]
   ELSE LET tp1 == Append(txpool, x)
-       IN [res |-> "ok_fluff", why |-> "", tp |-> tp1, sp |-> Rebuild(sp0, <<>>, tp1, U),
+       IN [res |-> "ok_fluff", why |-> "", tp |-> tp1, sp |-> Rebuild(sp0, <<>>, tp1, U, Height + 1),
            ca |-> CachePush(cache, x), evict |-> over, adm |-> x]
 
 Fluff(t) ==
@@ -173,7 +180,7 @@ Submit(t, stem, relay) ==
      /\ IF r.evict
         THEN \E v \in (IF EvictMode = "nodeps" THEN Evictable(r.tp) ELSE SeqToSet(r.tp)) :
                /\ txpool' = Remove(r.tp, v)
-               /\ stempool' = IF EvictMode = "nodeps" THEN Rebuild(r.sp, <<>>, txpool', U) ELSE r.sp
+               /\ stempool' = IF EvictMode = "nodeps" THEN Rebuild(r.sp, <<>>, txpool', U, Height + 1) ELSE r.sp
                /\ last' = [k |-> "Submit", t |-> t, stem |-> stem, relay |-> relay, res |-> r.res, why |-> r.why,
                            adm |-> r.adm, evict |-> TRUE, pre |-> r.tp, allowed |-> Evictable(r.tp), victim |-> v]
         ELSE /\ txpool' = r.tp
@@ -182,18 +189,32 @@ Submit(t, stem, relay) ==
                          adm |-> r.adm, evict |-> FALSE, pre |-> <<>>, allowed |-> {}, victim |-> {}]
      /\ cache' = r.ca
      /\ nsteps' = nsteps + 1
-     /\ UNCHANGED chain
+     /\ UNCHANGED <<chain, pending>>
 
 \* ChainToPoolAndNetAdapter::block_accepted with status Next: reconcile_block (+ time-based cache truncation,
 \* which never fires within a behaviour: entries are younger than reorg_cache_period)
 AfterBlock(B, ch) ==
   LET u == Utxo(ch)
-      tp1 == Rebuild(ReconcileBlock(txpool, B), <<>>, <<>>, u)
-      sp1 == Rebuild(ReconcileBlock(stempool, B), <<>>, tp1, u)
+      nh == HeightOf(ch) + 1
+      tp1 == Rebuild(ReconcileBlock(txpool, B), <<>>, <<>>, u, nh)
+      sp1 == Rebuild(ReconcileBlock(stempool, B), <<>>, tp1, u, nh)
   IN [tp |-> tp1, sp |-> sp1]
+
+\* Only the header of the next block arrives (process_block_header).  Nothing the pool depends on changes:
+\* "next block height", maturity and lock heights are all relative to the BODY head.
+HeaderFirst(B) ==
+  /\ nsteps < MaxSteps /\ Len(chain) < MaxBlocks
+  /\ pending = <<>>
+  /\ ValidBlock(B, chain)
+  /\ pending' = <<B>>
+  /\ last' = [k |-> "Header", d |-> 0, bs |-> <<B>>]
+  /\ nsteps' = nsteps + 1
+  /\ UNCHANGED <<chain, txpool, stempool, cache>>
 
 ConnectBlock(B) ==
   /\ nsteps < MaxSteps /\ Len(chain) < MaxBlocks
+  /\ pending = <<>> \/ pending = <<B>>
+  /\ pending' = <<>>
   /\ ValidBlock(B, chain)
   /\ chain' = Append(chain, B)
   /\ LET r == AfterBlock(B, chain') IN txpool' = r.tp /\ stempool' = r.sp
@@ -202,13 +223,13 @@ ConnectBlock(B) ==
   /\ UNCHANGED cache
 
 \* TransactionPool::reconcile_reorg_cache : add_to_txpool for every cached entry, failures ignored
-RECURSIVE ReAdd(_, _, _, _)
-ReAdd(ca, tp, sp, u) ==
+RECURSIVE ReAdd(_, _, _, _, _)
+ReAdd(ca, tp, sp, u, nh) ==
   IF ca = <<>> THEN [tp |-> tp, sp |-> sp]
   ELSE LET x == Head(ca)
-       IN IF CanAdd(tp, <<>>, x, u)
-          THEN LET tp1 == Append(tp, x) IN ReAdd(Tail(ca), tp1, Rebuild(sp, <<>>, tp1, u), u)
-          ELSE ReAdd(Tail(ca), tp, sp, u)
+       IN IF CanAdd(tp, <<>>, x, u) /\ StillRipe(x, u, nh)
+          THEN LET tp1 == Append(tp, x) IN ReAdd(Tail(ca), tp1, Rebuild(sp, <<>>, tp1, u, nh), u, nh)
+          ELSE ReAdd(Tail(ca), tp, sp, u, nh)
 
 RECURSIVE ValidBranch(_, _)
 ValidBranch(base, bs) == IF Len(bs) = 0 THEN TRUE
@@ -220,6 +241,7 @@ ValidBranch(base, bs) == IF Len(bs) = 0 THEN TRUE
 \* heavier block replacing two.
 Reorg(d, bs) ==
   /\ nsteps < MaxSteps
+  /\ pending = <<>>
   /\ d >= 1 /\ d <= Len(chain)
   /\ \/ Len(bs) = d + 1
      \/ ShortReorg /\ d = 2 /\ Len(bs) = 1
@@ -228,11 +250,11 @@ Reorg(d, bs) ==
      IN /\ ValidBranch(base, bs)
         /\ chain' = base \o bs
   /\ LET r1 == AfterBlock(bs[Len(bs)], chain')
-         r2 == ReAdd(cache, r1.tp, r1.sp, Utxo(chain'))
+         r2 == ReAdd(cache, r1.tp, r1.sp, Utxo(chain'), HeightOf(chain') + 1)
      IN txpool' = r2.tp /\ stempool' = r2.sp
   /\ last' = [k |-> "Reorg", d |-> d, bs |-> bs]
   /\ nsteps' = nsteps + 1
-  /\ UNCHANGED cache
+  /\ UNCHANGED <<cache, pending>>
 
 \* Pool::prepare_mineable_transactions : some order of the pool (the bucket order - left free here), then
 \* validate_raw_txs keeps a tx when the aggregate so far plus it validates within the miner's weight limit
@@ -247,9 +269,9 @@ PrepareMineable ==
   /\ nsteps < MaxSteps
   /\ last' = [k |-> "Mineable", set |-> Mineable]
   /\ nsteps' = nsteps + 1
-  /\ UNCHANGED <<chain, txpool, stempool, cache>>
+  /\ UNCHANGED <<chain, txpool, stempool, cache, pending>>
 
-Init == /\ chain = <<>> /\ txpool = <<>> /\ stempool = <<>> /\ cache = <<>>
+Init == /\ chain = <<>> /\ txpool = <<>> /\ stempool = <<>> /\ cache = <<>> /\ pending = <<>>
         /\ last = [k |-> "Init"] /\ nsteps = 0
 
 ----------------------------------------------------------------------------
